@@ -341,6 +341,12 @@ def run_loop(S, chooser, max_steps, eager, cur_job, sc):
         if starter and starter[0].state != 'dead':
             en = [t for t in en if t.role != 'app']
         if not en:
+            if S.blocked:
+                import time
+                time.sleep(0.3)
+                if any(t.real.is_alive() and t.state == 'blocked' for t in S.blocked):
+                    S.stuck = True
+                    return 'deadlock'
             return 'quiescent'
         pick = None
         for t in en:
@@ -610,6 +616,12 @@ def oracle_c14(r):
         out.append(('the first line written is %r, not the credentials message' % (w[0][:60],), {'kind': 'rac_not_first'}))
     if len(racs) > 1 or (q and len(racs) != 1):
         out.append(('%d credentials messages' % len(racs), {'kind': 'rac_count'}))
+    # written exactly once: when the run is over, the writer has ended and no write failed, the credentials line that
+    # was enqueued is on the wire (a close() right after start() must not discard it)
+    write_fault = any(e[0] in ('send-error', 'send-closed') for e in r.events)
+    if racs and r.status == 'quiescent' and not write_fault and not r.exits and r.threads.get('writer') == 'dead' \
+            and not any(x.split('|')[:2] == ['1', 'RAC'] for x in w):
+        out.append(('the credentials message was enqueued but never written although no write failed (lines written: %r)' % (w[:3],), {'kind': 'rac_not_written'}))
     if racs:
         try:
             m, ps = ari.params(racs[0].split('|', 1)[1])
@@ -757,8 +769,16 @@ def content_cases(r):
     return out
 
 
+def deadlock_violation(r):
+    if r.status == 'deadlock':
+        who = [e[1] for e in r.events if e[0] == 'blocked-in-real-primitive']
+        return [('thread(s) %s of the library blocked for good in a synchronisation primitive although every other thread is at rest: requests can no longer be served'
+                 % (sorted(set(who)),), {'kind': 'deadlock'})]
+    return []
+
+
 def oracle_c04(r):
-    out = []
+    out = deadlock_violation(r)
     sc = r.sc
     if sc.kind != 'meta':
         return out
@@ -850,7 +870,7 @@ def close_expected_at(r, pos):
 
 
 def oracle_c18(r):
-    out = []
+    out = deadlock_violation(r)
     sc = r.sc
     want = sc.cpu if (sc.pool is None or sc.pool <= 0) else sc.pool
     if r.pool_size != want:
@@ -886,7 +906,7 @@ def oracle_c18(r):
 
 
 def oracle_c20(r):
-    out = []
+    out = deadlock_violation(r)
     sc = r.sc
     dl = delivered(r)
     # a close request honoured?
